@@ -252,6 +252,43 @@ def judge(root, info, order, plan, skips_of):
     sto, msg = call(overlapping)
     if sto != 'ok' or msg:
         fails.append(('overlapping', msg if sto == 'ok' else 'overlapping traversals raise: %s' % (msg,)))
+    # (i) `walk` yields EVERY node whatever it is given as its second argument (the parameter exists for signature
+    #     compatibility with filter only)
+    for cond in (lambda n: False, lambda n: isinstance(n, type(W[-1])) if W else False):
+        stc, Wc = call(lambda: list(Walker().walk(root, cond)))
+        if stc != 'ok' or not same(Wc, W):
+            fails.append(('walk-condition', 'walk(node, condition) yields %s nodes, walk(node) yields %d' % (
+                len(Wc) if stc == 'ok' else Wc, len(W))))
+            break
+    # (j) the walk is a function of the tree AS IT IS NOW: after an in-place edit of a list a node hands out (statements
+    #     popped / put back), a new walk reflects the edit - nothing is remembered from earlier traversals
+    def edited():
+        done = 0
+        for m in [root] + order:
+            for k, v in list(vars(m).items()):
+                if k.startswith('_') or not isinstance(v, list) or len(v) < 2 or not all(isinstance(x, Node) for x in v):
+                    continue
+                if any(id(x) not in pos for x in v):
+                    continue
+                x = v.pop()
+                try:
+                    gone = set(id(y) for y in Walker().walk(x)) | {id(x)}
+                    want = [n for n in W if id(n) not in gone]
+                    got = list(Walker().walk(root))
+                    if not same(got, want):
+                        return 'after %s.%s.pop() a new walk yields %d nodes, the tree now holds %d' % (
+                            kind_of(m), k, len(got), len(want))
+                finally:
+                    v.append(x)
+                if not same(list(Walker().walk(root)), W):
+                    return 'after putting the popped item of %s.%s back a new walk differs from the first' % (kind_of(m), k)
+                done += 1
+                if done >= 3:
+                    return None
+        return None
+    ste, msg = call(edited)
+    if ste != 'ok' or msg:
+        fails.append(('in-place-edit', msg if ste == 'ok' else 'walking an edited tree raises: %s' % (msg,)))
     # (e) filter = walk then select, (f) extract = n-th match or TypeError
     for ks, ex in plan:
         cond = cond_of(ks)
